@@ -69,13 +69,48 @@ def flat_statements(body, skip=None):
     return out
 
 
-def diff_blocks(body_a, body_b, mapping=None, skip=None):
+def canon_locals(stmts):
+    """Rename the names stored inside the block (locals) to _v0, _v1, ... in order of first store, so that two
+    blocks that differ only in the choice of local names compare equal.  Returns new statements."""
+    order = []
+    for s in stmts:
+        for n in ast.walk(s):
+            if isinstance(n, ast.Name) and isinstance(n.ctx, ast.Store) and n.id not in order:
+                order.append(n.id)
+            elif isinstance(n, ast.arg) and False:
+                pass
+    # walk order of ast.walk is breadth-first; use source position for a stable order
+    pos = {}
+    for s in stmts:
+        for n in ast.walk(s):
+            if isinstance(n, ast.Name) and isinstance(n.ctx, ast.Store):
+                key = (getattr(n, "lineno", 0), getattr(n, "col_offset", 0))
+                if n.id not in pos or key < pos[n.id]:
+                    pos[n.id] = key
+    names = sorted(pos, key=lambda k: pos[k])
+    mapping = {nm: "_v%d" % i for i, nm in enumerate(names)}
+    out = []
+    for s in stmts:
+        c = clone(s)
+        for x in ast.walk(c):
+            if isinstance(x, ast.Name) and x.id in mapping:
+                x.id = mapping[x.id]
+        out.append(c)
+    return out
+
+
+def diff_blocks(body_a, body_b, mapping=None, skip=None, canon=True):
     """Differences between block a (renamed by mapping) and block b.
     Returns list of (tag, text_a, stmt_a, text_b, stmt_b) with tag in {'replace','delete','insert'}."""
     mapping = mapping or {}
-    a = flat_statements([rename(s, mapping) for s in body_a], skip)
+    ra = [rename(s, mapping) for s in body_a]
+    rb = list(body_b)
+    if canon:
+        ra, rb = canon_locals(ra), canon_locals(rb)
+    a = flat_statements(ra, skip)
     a_orig = flat_statements(body_a, skip)
-    b = flat_statements(body_b, skip)
+    b_orig = flat_statements(body_b, skip)
+    b = flat_statements(rb, skip)
     sm = difflib.SequenceMatcher(a=[t for t, _ in a], b=[t for t, _ in b], autojunk=False)
     out = []
     for tag, i1, i2, j1, j2 in sm.get_opcodes():
@@ -84,6 +119,6 @@ def diff_blocks(body_a, body_b, mapping=None, skip=None):
         ta = [a[i][0] for i in range(i1, i2)]
         tb = [b[j][0] for j in range(j1, j2)]
         sa = a_orig[i1][1] if i1 < i2 and i1 < len(a_orig) else None
-        sb = b[j1][1] if j1 < j2 else None
+        sb = b_orig[j1][1] if j1 < j2 and j1 < len(b_orig) else None
         out.append((tag, ta, sa, tb, sb))
     return out, len(a), len(b)
